@@ -235,9 +235,9 @@ LEVELS = {
     },
 
     "C02": {
-        "text": 'Theorems in Coq about the executable model of the four validators: the error buffer is append-only and every object graph is walked to the end (no early exit, declaration then rule order), one rule instance writes at most one clause naming its field (contract proved for all 30 rule functions of the table), groups yield at most one clause each and come last, the result is nil exactly when nothing was written. Tied to the code by synthesised struct programs whose expected clause lists are known by construction.',
+        "text": 'Theorems in Coq about the executable model of the four validators: the error buffer is append-only and every object graph is walked to the end (no early exit, declaration then rule order), one rule instance writes at most one clause naming its field (contract proved for all 30 rule functions of the table), groups yield at most one clause each and come last, the result is nil exactly when nothing was written. Capstone (C02_walk_exact, C02_struct_valid_exact): against an address-based specification with no buffer, fuel or traversal (Spec/WalkAddr.v: resolve is structural on the address), for every configuration and every object graph the validator writes exactly the contributions of the resolving addresses, each once, in strictly increasing lexicographic order (declaration order, rule order, nested instances after the rule that opens them), group clauses last, nil iff none. Tied to the code by synthesised struct programs whose expected clause lists are known by construction.',
         "design_ref": "DESIGN.md section 5, C02",
-        "note": "Trusted: Coq kernel, translator, correspondence harness (value printer, error-text projection). The walkers are modelled by hand; reflect is modelled at the calls used. 'Exactly one clause per VIOLATED instance' combines these structural theorems with the per-rule verdict theorems of C01/C05.",
+        "note": "Trusted: Coq kernel, translator, correspondence harness (value printer, error-text projection). The walkers are modelled by hand; reflect is modelled at the calls used. 'Exactly one clause per VIOLATED instance' = the exactness theorem (one contribution per rule instance) + the rule contract (a contribution is at most one clause) + the per-rule verdict theorems of C01/C05. The exactness theorem covers the struct walker; Var / Map / Url are flat loops with per-step theorems.",
         "technique": 'Coq proof (induction on depth fuel with top-level helpers, append-only buffer invariant, rule contract) + generator with by-construction expectations evaluated in Coq against implementation and model',
     },
     "C03": {
@@ -247,9 +247,9 @@ LEVELS = {
         "technique": 'Coq proof (induction on depth fuel with top-level helpers, append-only buffer invariant, rule contract) + generator with by-construction expectations evaluated in Coq against implementation and model',
     },
     "C04": {
-        "text": "Theorems in Coq: under required/exist a struct reached through any number of pointer levels is validated under Parent.Field, slice/array elements under Parent.Field[i], map entries under Parent.Field[key], to any depth (fuel > depth); zero/nil sub-objects under exist are skipped silently; fields without required/exist never use the recursive call (the result is independent of it), unexported and time.Time fields are skipped; every clause found inside an object carries a path extending the object's path. Tied by deep synthesised graphs with decoys and by-construction (path, marker) lists.",
+        "text": "Theorems in Coq: under required/exist a struct reached through any number of pointer levels is validated under Parent.Field, slice/array elements under Parent.Field[i], map entries under Parent.Field[key], to any depth (fuel > depth); zero/nil sub-objects under exist are skipped silently; fields without required/exist never use the recursive call (the result is independent of it), unexported and time.Time fields are skipped; every clause found inside an object carries a path extending the object's path. Capstone (C04_reaches_exactly): a clause is written, at whatever depth, if and only if it is the contribution of a rule instance some address resolves to, where resolve (Spec/WalkAddr.v, structural on the address) enters a value only through a built-in required/exist on a non-empty value and names what it enters Parent.Field, Parent.Field[i], Parent.Field[key]. Tied by deep synthesised graphs with decoys and by-construction (path, marker) lists.",
         "design_ref": "DESIGN.md section 5, C04",
-        "note": 'Trusted as C02. Reach is characterised by these per-construct equations and the path-prefix invariant rather than by a separate inductive relation.',
+        "note": 'Trusted as C02. Reach is the resolve function of Spec/WalkAddr.v (an independent, fuel-free, buffer-free definition) plus the per-construct equations.',
         "technique": 'Coq proof (induction on depth fuel with top-level helpers, append-only buffer invariant, rule contract) + generator with by-construction expectations evaluated in Coq against implementation and model',
     },
     "C13": {
@@ -345,12 +345,16 @@ LEVELS = {
     "C01": {
         "text": "Theorems in Coq: for every rule text whose bounds parse, every object/field name and every non-zero value of a sized kind, each of the 8 "
                 "rule functions writes a clause exactly when the measure (rune count / exact integer or dyadic value / slice length) lies outside the "
-                "stated set, and at most one clause; the verdict depends on the measure only (width, signedness irrelevant). A finite 8-bit sweep "
-                "through the rule text is proved by computation. Model tied to the code by the complete 8-bit sweep and boundary cases evaluated in Coq.",
+                "stated set, and at most one clause; the verdict depends on the measure only (width, signedness irrelevant). strconv.Itoa then Atoi is "
+                "the identity on every int64, so for every pair of int64 bounds the builder-written text key=lo~hi|msg is read back as exactly those "
+                "bounds and judged by them. The go/ast syntax trees of validInputSize and eq are REGENERATED FROM /repo ON EVERY RUN and, under a stated "
+                "semantics of the Go forms they use, proved to compute the model for every bound, value and mode. A finite 8-bit sweep through the rule "
+                "text is proved by computation. Model also tied to the code by the complete 8-bit sweep and boundary cases evaluated in Coq.",
         "design_ref": "DESIGN.md section 5, C01",
         "note": "Trusted: Coq kernel + vm_compute; translator (rule table); correspondence harness; reflect/strconv/utf8 modelled at the calls used. "
-                "The parse of builder-written bound text (Itoa/Atoi round trip) is covered by the finite sweep theorem and the correspondence, not by an unbounded lemma.",
-        "technique": "Coq proof (case analysis + linear arithmetic over Z, finite sweep by vm_compute) + model-vs-implementation correspondence evaluated in Coq",
+                "Trusted in addition: the MiniGo translator (harness/cmd/extract/minigo.go, one constructor per go/ast node) and the semantics of Model/GoSize.v "
+                "(int/int64 as Z, uint64(int) as mod 2^64, float64(int) exact). The rule functions To/Ge/.. (message assembly around validInputSize) are hand-modelled.",
+        "technique": "Coq proof (case analysis + linear arithmetic over Z, digit induction for Itoa/Atoi, finite sweep by vm_compute) + source-to-Gallina translator with staged symbolic execution proved equal to the model + model-vs-implementation correspondence evaluated in Coq",
     },
     "C10": {
         "text": "Theorems in Coq about an interleaving semantics with a reader/writer lock: the lock/field summary of every LRUCache method is "
@@ -366,11 +370,15 @@ LEVELS = {
     "C09": {
         "text": "Refinement proofs in Coq: the line-by-line model of cache.go refines an abstract most-recent-first list, which refines an order-free "
                 "timestamp specification (evict the entry with the oldest store-or-load), for every operation history and every capacity >= 0, by "
-                "induction over the history with a 7-clause coupling invariant; corollaries: bound, Len exactness, callback log. The model is tied to "
-                "the code by exhaustive short histories and long random ones evaluated in Coq.",
+                "induction over the history with a 7-clause coupling invariant; corollaries: bound, Len exactness, callback log. The go/ast syntax trees of "
+                "Store, Load, Delete, delete and Len are REGENERATED FROM /repo ON EVERY RUN and, under a stated semantics of the Go forms they use, every "
+                "history run through those bodies is proved equal to the model's run (per method on every state satisfying the invariant, then by "
+                "induction over histories). The model is also tied to the code by exhaustive short histories and long random ones evaluated in Coq.",
         "design_ref": "DESIGN.md section 5, C09",
-        "note": "Trusted: Coq kernel + vm_compute; translator (lruSize); correspondence harness. container/list and the Go map are modelled, not verified.",
-        "technique": "Coq refinement proof (two layers, induction over histories) + bounded-exhaustive and random model-vs-implementation correspondence",
+        "note": "Trusted: Coq kernel + vm_compute; translator (lruSize; minigo.go, one constructor per go/ast node); the semantics of Model/GoLRU.v "
+                "(container/list as a list of (id, value), the Go map as an association list visited by range from its far end, removed elements keep their Value); "
+                "correspondence harness. container/list and the Go map are modelled, not verified.",
+        "technique": "Coq refinement proof (two layers, induction over histories) + source-to-Gallina translator with an interpreter proved equal to the model on every history + bounded-exhaustive and random model-vs-implementation correspondence",
     },
     "C14": {
         "text": "Theorems in Coq about an executable model of ParseValidNameKV / ValidNamesSplit / GenValidKV / RM.Set/Get: no-loss law for "
